@@ -120,16 +120,17 @@ def run(ctx):
     #           does not distinguish), one object, and five objects of one context ("multi")
     #    walk:  seeded random walks over the large alphabet
     if quick:
-        runs = [("cover", "quick", 3, None, "all"), ("seq", "small", 4, None, "sampled"), ("seq", "multi", 3, None, "multi")]
+        runs = [("cover", "quick", 3, None, "all"), ("seq", "small", 4, None, "sampled"), ("seq", "multi", 3, None, "multi"),
+                ("walk", "thorough", 8, 400, "sampled")]
     else:
         runs = [("cover", "thorough", 3, None, "all"), ("cover", "deep", 4, None, "sampled"),
                 ("seq", "small12", 5, None, "sampled"), ("seq", "multi", 3, None, "multi"),
-                ("walk", "thorough", 8, 6000, "sampled")]
+                ("walk", "thorough", 8, 4000, "sampled")]
     groups = {}
     for mode, alpha, depth, sim, how in runs:
         defs = {"Alphabet": '"%s"' % alpha, "Mode": '"%s"' % mode, "MaxOps": str(depth), "Legacy": "{}"}
         if mode == "walk":
-            m = ctx.tlc("Headers", cfg="HeadersSeq.cfg", defines=defs, simulate=sim, depth=depth + 2, timeout=2400,
+            m = ctx.tlc("Headers", cfg="HeadersWalk.cfg", defines=defs, simulate=sim, depth=depth + 2, timeout=2400,
                         tag="walk %s depth %d" % (alpha, depth))
         else:
             m = ctx.tlc("Headers", cfg=("Headers.cfg" if mode == "cover" else "HeadersSeq.cfg"), defines=defs,
